@@ -3,6 +3,9 @@
 import json, os, subprocess
 V = os.path.dirname(os.path.dirname(os.path.abspath(__file__)))
 TEXT = {
+ 'C11': ('view-consistency monitor: after every step of a history on a real stream the mass/vol views and totals are compared with mol*MW, mol*V_i(phase,T,P) evaluated by the harness, and their sums; set/get round trips and fixed unit factors at write steps',
+         'Exploration: seeded histories of 5-40 steps mixing view writes in 8 units with T/P/phase/phases changes, link_with (all flag subsets)/unlink with a partner, copy_like, property-package reset, scale, mixing; the stream and its partner are both checked after every step.',
+         'Molar volumes are read from the Chemical objects; unit factors from a fixed exact table.'),
  'C12': ('structure-ledger monitor: per-(label, CAS) content, T, P and type snapshotted around every representation change, phase-view write and get_data/set_data of a real stream, compared with a relabelling model',
          'Exploration: seeded histories of 5-30 steps (phases=, phase=, reduce_phases, as_stream, vle/lle/sle accessors, view and parent writes, T/P changes through either side, save/restore) from random distributions over subsets of s,l,g,S,L.',
          'Target phase sets contain every non-empty phase up to case; solver objects are requested but not called.'),
